@@ -648,8 +648,11 @@ void ClipperOffset::Execute(double delta, PolyTree64& polytree)
 
 void ClipperOffset::Execute(DeltaCallback64 delta_cb, Paths64& paths)
 {
+	// the callback only applies to this call (see SetDeltaCallback for a lasting one)
+	DeltaCallback64 prev_cb = deltaCallback64_;
 	deltaCallback64_ = delta_cb;
 	Execute(1.0, paths);
+	deltaCallback64_ = prev_cb;
 }
 
 } // namespace
